@@ -1026,6 +1026,13 @@ def model_sources(ctx: Ctx, budget: Budget) -> Iterator[Tuple[str, str]]:
     from harness import mm as MMP
 
     yield from fixed_sources()
+    if ctx.tier == "thorough":
+        # the real meta-model of the project's own test data (50 classes, 11 enumerations)
+        from harness.core import REPO
+
+        real = REPO / "dev" / "test_data" / "common_meta_models" / "aas_core_meta.v3.py"
+        if real.exists():
+            yield "real:aas_core_meta.v3", real.read_text(encoding="utf-8")
     for k in range(budget.models):
         f = MMP.Features()
         f.lists_of_non_classes = True
